@@ -73,9 +73,30 @@ def fanout_sweep(ctx, F, prefix, method):
         end = p[-1]
         if nchild == 0 and end in ("<leave>", "<exit>"):
             continue     # the loop-exit path (bound reached)
+        if b.blocks[blocks[-1]]["term"]["k"] == "unreachable":
+            continue     # `otherwise` arm of an exhaustive match
         n_iter += 1
-        returns_pending = end != "<back>"
-        ok = nchild == 1 and (nadv == 1 or (returns_pending and nadv <= 1))
+        leaves = end != "<back>"
+        ok = nchild == 1 and (nadv == 1 or (leaves and nadv <= 1))
+        if ok and leaves:
+            # leaving the sweep before the bound is reached is legitimate only (a) to return Pending, (b) on the branch that
+            # established "this is the last entry" (idx == len - 1)
+            pend = any(rv["k"] == "agg" and rv.get("variant") == "Pending" and pl["l"] == 0 for (i2, j2, pl, rv, s2) in b.assigns() if i2 in blocks or i2 in flow.reach_avoiding(b, [blocks[-1]], lp))
+            last = False
+            for x in blocks:
+                sc = flow.switch_condition(b, x)
+                if sc and sc.get("kind") == "opaque":
+                    # `if is_last` on a bool computed by idx == len - 1
+                    d = flow.single_def(b, sc["local"])
+                    r = flow.root(b, sc["local"])
+                    if r[0] == "rv" and r[1]["k"] == "binop" and r[1]["op"] == "Eq":
+                        sc = {"kind": "cmp", "op": "Eq", "true": sc["true"] if not sc.get("neg") else sc["false"], "false": sc["false"] if not sc.get("neg") else sc["true"]}
+                if sc and sc.get("kind") == "cmp" and sc["op"] == "Eq" and sc["true"] in blocks:
+                    last = True
+            if method == "start_send":
+                ok = last
+            else:
+                ok = pend
         if not ok:
             bad.append((nchild, nadv, end, [b.blocks[x]["term"].get("span", "") for x in blocks if x in child_bbs or x in rem_bbs][:3]))
     ctx.check(not bad and n_iter >= 2, prefix + ".sweep-once", "fanout:%s:sweep" % method,
